@@ -2,9 +2,13 @@
 PROP = dict(
     level='exploration',
     level_text='Generated differential testing of every pstm_* operation against GMP over operand sizes/values/aliasing chosen to reach each size-specialised code path; finds wrong results with high probability where they depend on operand shape, proves nothing about unexplored operands.',
-    level_note='Trusted: GMP, the harness conversion of digit arrays. Functions are exercised inside the operand domain their documentation and in-tree callers define (listed per operation in props/C13/bignum.cc): results <= PSTM_MAX_SIZE-2 digits; sub_s |a|>=|b|; sqr/montgomery/exptmod non-negative; Montgomery modulus odd; exptmod P odd with 512..4096 bits in the supported steps and 0<X<P; invmod must succeed only for 0<a<b, gcd 1, bits(a)+bits(b)<=4096; the remainder output of pstm_div_2d (never requested in-tree) only with a separate quotient and shift < 64.',
+    level_note='Trusted: GMP, the harness conversion of digit arrays. Functions are exercised inside the operand domain their documentation and in-tree callers define (listed per operation in props/C13/bignum.cc): results <= PSTM_MAX_SIZE-2 digits; sub_s |a|>=|b|; sqr/montgomery/exptmod non-negative; Montgomery modulus odd; exptmod P odd with 512..4096 bits in the supported steps and 0<X<P; invmod must succeed only for 0<a<b, gcd 1, bits(a)+bits(b)<=4096; the remainder output of pstm_div_2d for every shift count and also with c == a (repaired in /repo 7525ffd). pstm_sub_s is an unsigned primitive: magnitude only. Output/input aliasing that no in-tree caller uses and the headers do not promise (exptmod Y==X, Y==P; mulmod d==c; invmod c==b; div c==NULL,d==a / c==NULL,d==b / c==b,d==a; montgomery_calc_normalization a==b; montgomery_reduce a==m) is executed and counted (unpromised:*), not judged.',
     technique='property-based differential testing vs GMP (tape generators + shrinking) plus GMP-free algebraic identities and the pstm_int structural invariant after every call',
     rule='case = (operation, operand digit counts, value classes, signs, aliasing pattern, output-variable state, scratch-buffer mode) drawn from the tape. '
+         'Output variables: every primary output of every operation is fresh (minimal / default allocation) or pre-loaded with a generated value whose digit count is drawn relative to the exact result '
+         '(any shorter, just shorter, equal, just longer, up to 40 digits longer; random / all-ones / top-bit-only digits; exact to roomy allocation) and whose sign is generated (counters out:<op>:<zero|shorter|equal|longer>[:neg]); '
+         'the output is aliased with each input in turn (exptmod: Y==G enforced as in rsa.c, Y==X and Y==P counted; see level_note); negative operands are squared too. '
+         'These choices come from a second tape region (bytes 1024..1151) so that operand generation is unaffected. '
          'Operations: add sub sub_s add_d sub_d mul_comba sqr_comba mul_d mul_2 div div_2 div_2d mod mulmod exptmod invmod lshd rshd 2expt cmp cmp_mag cmp_d '
          'montgomery_setup/calc_normalization/reduce read_unsigned_bin to_unsigned_bin(_nr,_alloc) unsigned_bin_size count_bits read_asn read_radix copy abs init_copy set zero exch grow clamp. '
          'Digit counts: 12/16 of the binary cases draw a uniform pair from [0,34]^2 (counters pair:m:n), the rest 35..70 and up to 190 digits. '
